@@ -9,6 +9,7 @@ package main
 
 import (
 	"bufio"
+	"bytes"
 	"encoding/json"
 	"flag"
 	"fmt"
@@ -221,6 +222,13 @@ func runVector(v map[string]any, seed int64) []string {
 		ev["seq"] = i + 1
 		ev["r"] = runOp(s, Args(a))
 		b, err := json.Marshal(ev)
+		if err == nil && bytes.Contains(b, []byte("null")) {
+			// TLC's JSON reader has no null: absent values are empty arrays
+			var generic any
+			if json.Unmarshal(b, &generic) == nil {
+				b, err = json.Marshal(denull(generic))
+			}
+		}
 		if err != nil {
 			b, _ = json.Marshal(map[string]any{"sid": sid, "seq": i + 1, "op": a["op"], "fn": a["fn"],
 				"r": Res{"panic": false, "hang": false, "marshal_error": err.Error()}})
@@ -228,4 +236,22 @@ func runVector(v map[string]any, seed int64) []string {
 		evs = append(evs, string(b))
 	}
 	return evs
+}
+
+func denull(v any) any {
+	switch x := v.(type) {
+	case nil:
+		return []any{}
+	case map[string]any:
+		for k, e := range x {
+			x[k] = denull(e)
+		}
+		return x
+	case []any:
+		for i, e := range x {
+			x[i] = denull(e)
+		}
+		return x
+	}
+	return v
 }
